@@ -67,12 +67,18 @@ func VerifC08Dump(rm *RegistrationManager, now, quantum int64, hex func(string) 
 		}
 	}
 	q := time.Duration(quantum) * time.Second
-	for _, to := range r.decoysTimeouts {
+	for ix, to := range r.decoysTimeouts {
+		// the registration a record belongs to, from the key the registry stores it under (the phantom
+		// address is free of the separator of timeoutIndex): no field of the record's bookkeeping is named
+		tph, tid := "?", ix
+		if i := strings.IndexByte(ix, '|'); i >= 0 && timeoutIndex(ix[:i], ix[i+1:]) == ix {
+			tph, tid = ix[:i], ix[i+1:]
+		}
 		u := "0"
 		if to.status == regStatusUsed {
 			u = "1"
 		}
-		t = append(t, fmt.Sprintf("%s,%s,%d,%s", to.decoy, hex(to.identifier), now-int64(time.Since(to.registrationTime)/q)*quantum, u))
+		t = append(t, fmt.Sprintf("%s,%s,%d,%s", tph, hex(tid), now-int64(time.Since(to.registrationTime)/q)*quantum, u))
 	}
 	sort.Strings(d)
 	sort.Strings(t)
